@@ -137,6 +137,20 @@ impl<'a> Lexicon<'a> {
         self.word_infos.get_word_info(word_id, subset)
     }
 
+    /// Returns WordInfo data for given word_id, dictionary form is not resolved
+    pub(crate) fn get_word_info_unresolved(
+        &self,
+        word_id: u32,
+        subset: InfoSubset,
+    ) -> SudachiResult<word_infos::WordInfoData> {
+        self.word_infos.get_word_info_unresolved(word_id, subset)
+    }
+
+    /// Returns the surface (headword) for given word_id
+    pub(crate) fn get_surface(&self, word_id: u32) -> SudachiResult<String> {
+        self.word_infos.get_surface(word_id)
+    }
+
     /// Returns word_param for given word_id.
     /// Params are (left_id, right_id, cost).
     #[inline]
